@@ -154,4 +154,53 @@ def handleThreads (j : Json) : Except String Json := do
       | none => Json.mkObj [("finished", .bool false)])).toArray),
     ("sessions", .arr ((List.range ps.length).map (fun i => tableMapToJson (r.1 i).session)).toArray)]
 
+/-- thread `i` steps until it has emitted one event or is finished.  Steps without an event (gated-off lookups) change
+    nothing but the thread's own remaining program, so folding them into the next visible step is an interleaving of
+    `wrun` like any other. -/
+def quantum : Nat → World → (Nat → Thread α) → Nat → World × (Nat → Thread α) × List Event
+  | 0, w, ths, _ => (w, ths, [])
+  | fuel + 1, w, ths, i =>
+    let th := ths i
+    match th.tree.result? with
+    | some _ => (w, ths, [])
+    | none =>
+      let ev := (th.tree.step th.fails ⟨w th.pid, th.nBase⟩).2.2
+      let r := wstep w ths i
+      if ev.isEmpty then quantum fuel r.1 r.2 i else (r.1, r.2, ev)
+
+/-- `{"cmd":"provsched","providers":[…],"threads":[{"pid","script","faults"},…],"sched":[tid,…]}` — the schedule is in
+    units of visible events (what the harness' access scheduler can control on the real code).
+    → per schedule entry: the event performed (or null if the thread had finished) and every provider's session after
+      it; per thread: finished?, result -/
+def handleSched (j : Json) : Except String Json := do
+  let psJ ← j.getObjValAs? (Array Json) "providers"
+  let ps ← psJ.toList.mapM providerOfJson
+  let thJ ← j.getObjValAs? (Array Json) "threads"
+  let ths ← thJ.toList.mapM (fun t => do
+    let pid ← natOf (← t.getObjVal? "pid")
+    let (s, f) ← runOfJson t
+    pure ({ pid := pid, fails := f.fails, nBase := 0, tree := runTree s.toScript f } : Thread (Except Err DescResult)))
+  let sched ← (← j.getObjValAs? (Array Json) "sched").toList.mapM natOf
+  if sched.any (· ≥ ths.length) then throw "schedule names an unknown thread"
+  if ths.any (·.pid ≥ ps.length) then throw "thread names an unknown provider"
+  let w0 : World := fun i => ps.getD i defaultProvider
+  let idle : Thread (Except Err DescResult) := ⟨0, fun _ => false, 0, .ret (.error (.other "no such thread"))⟩
+  let sessions (w : World) : Json := .arr ((List.range ps.length).map (fun i => tableMapToJson (w i).session)).toArray
+  let rec go (w : World) (t : Nat → Thread (Except Err DescResult)) : List Nat → List Json → World × (Nat → Thread (Except Err DescResult)) × List Json
+    | [], acc => (w, t, acc.reverse)
+    | i :: rest, acc =>
+      let r := quantum 100000 w t i
+      let evJ := match r.2.2 with
+        | e :: _ => eventToJson e
+        | [] => Json.null
+      go r.1 r.2.1 rest (Json.arr #[natJ i, evJ, sessions r.1] :: acc)
+  let r := go w0 (fun i => ths.getD i idle) sched []
+  pure <| Json.mkObj [
+    ("steps", .arr r.2.2.toArray),
+    ("threads", .arr ((List.range ths.length).map (fun i =>
+      match (r.2.1 i).tree.result? with
+      | some res => Json.mkObj [("finished", .bool true), ("result", resultToJson res)]
+      | none => Json.mkObj [("finished", .bool false)])).toArray),
+    ("sessions", sessions r.1)]
+
 end SqlLineage.IO.Provider
